@@ -19,7 +19,7 @@ RULE = ("function level: prependHeader for every type and body lengths 0..4077 (
         "per-goroutine order preserved, nothing malformed; a writer of an ended session returns an error and its bytes never "
         "appear on a later connection. distinct = distinct (writers, sizes, teardown point).")
 ASSUMPTIONS = ["one conn.Write is atomic with respect to other Writes on the same net.Conn (fd write lock): trusted runtime behaviour"]
-COQ_FILES = ["Model/Conn.v", "Model/Packet.v", "Proofs/FrameProofs.v", "Props/C04.v"]
+COQ_FILES = ["Model/Conn.v", "Model/Packet.v", "Proofs/FrameProofs.v", "Model/Writers.v", "Proofs/WritersProofs.v", "Props/C04.v"]
 OPENM = S.frame(S.OPEN, S.open_body(hold=3)).hex()
 KAM = S.frame(S.KEEPALIVE).hex()
 
